@@ -7,6 +7,11 @@ export PIP_NO_INDEX=1
 if ! /venv/bin/python -c "import hypothesis" 2>/dev/null; then
   /venv/bin/pip install --no-index --find-links /opt/veriftools/wheels --target "$HERE/.deps" hypothesis || exit 2
 fi
+# optional: atheris for the coverage-guided stage of the thorough tier (skipped, and said so in the evidence, if absent)
+if ! PYTHONPATH="$HERE/.deps" /venv/bin/python -c "import atheris" 2>/dev/null; then
+  /venv/bin/pip install --no-index --find-links /opt/veriftools/wheels --target "$HERE/.deps" atheris >/dev/null 2>&1 \
+    || echo "note: atheris could not be installed; the coverage-guided stage will be skipped"
+fi
 PYTHONPATH="/repo/src:$HERE${HERE:+:$HERE/.deps}" /venv/bin/python - <<'PY' || exit 2
 import hypothesis, async_solipsism, time_machine, numpy, networkx
 import frequenz.sdk, frequenz.channels, frequenz.client.microgrid
